@@ -321,7 +321,10 @@ impl SwiftField for Field53SenderCorrespondent {
                 let field = Field53D::parse(value)?;
                 Ok(Field53SenderCorrespondent::D(field))
             }
-            _ => {
+            Some(other) => Err(ParseError::InvalidFormat {
+                message: format!("Option {} is not supported by this field", other),
+            }),
+            None => {
                 // No variant specified, fall back to default parse behavior
                 Self::parse(value)
             }
